@@ -212,6 +212,72 @@ fn c09_comprehension_scope() {
 }
 }
 
+// @harness id=c09_comprehension_single props=C09 tier=quick cap=1500
+// @desc Analyzer on `[B for I in A]` with symbolic names: the generator's source A is resolved in the OUTER scope only (it does not see its own variable I), the body B sees I and the outer scope
+// @bound one template, 3 symbolic names over 4 identifiers, symbolic outer scope
+// @funcs Analyzer::analyze_comp_spec, Analyzer::analyze_expr (ArrayComp arm)
+eval_stubs! {
+#[kani::proof]
+#[kani::unwind(7)]
+fn c09_comprehension_single() {
+    let arena = Arena::new();
+    let mut program = bare_program(&arena);
+    let nm = names(&arena, &mut program);
+    let i = any_idx(3);
+    let (a, b) = (any_idx(4), any_idx(4));
+    let outer_has_c: bool = kani::any();
+    let spec = [ast::CompSpecPart::For(ast::ForSpec { var: nm.ident(i), inner: nm.var(a) })];
+    let body = nm.var(b);
+    let root = ast::Expr { kind: ast::ExprKind::ArrayComp(&body, &spec), span: nm.span };
+    let res = analyze_with_outer(&program, &nm, outer_has_c, &root);
+    let outer = |k: usize| k == 2 && outer_has_c;
+    if outer(a) && (b == i || outer(b)) {
+        assert!(matches!(&res, Ok(ir::Expr::ArrayComp { .. })), "accepted");
+        kani::cover!(b == i && i != 2, "body uses the generator variable");
+    } else {
+        assert!(matches!(&res, Err(AnalyzeError::UnknownVariable { .. })), "a generator's source cannot see its own variable");
+        kani::cover!(a == i && !outer(a), "source refers to the variable it defines");
+    }
+    core::mem::forget(res);
+    core::mem::forget(program);
+}
+}
+
+// @harness id=c09_objcomp_field_name props=C09 tier=quick cap=1500
+// @desc Analyzer on the object comprehension `{ local V = null, [E]: W for K in A }` with symbolic names: the computed field name E is resolved in the comprehension scope (outer variables and K) and does NOT see the object local V, while the field body W sees V, K and the outer scope
+// @bound one template, 5 symbolic names over 4 identifiers, symbolic outer scope
+// @funcs Analyzer::analyze_objinside (ObjInside::Comp), Analyzer::analyze_comp_spec
+eval_stubs! {
+#[kani::proof]
+#[kani::unwind(7)]
+fn c09_objcomp_field_name() {
+    let arena = Arena::new();
+    let mut program = bare_program(&arena);
+    let nm = names(&arena, &mut program);
+    let (v, k) = (any_idx(3), any_idx(3));
+    let (e, w, a) = (any_idx(4), any_idx(4), any_idx(4));
+    let outer_has_c: bool = kani::any();
+    let locals2 = [ast::ObjLocal { bind: ast::Bind { name: nm.ident(v), params: None, value: nm.null() } }];
+    let name = nm.var(e);
+    let body = nm.var(w);
+    let spec = [ast::CompSpecPart::For(ast::ForSpec { var: nm.ident(k), inner: nm.var(a) })];
+    let inside = ast::ObjInside::Comp { locals1: &[], name: &name, plus: false, body: &body, locals2: &locals2, comp_spec: &spec };
+    let root = ast::Expr { kind: ast::ExprKind::Object(inside), span: nm.span };
+    let res = analyze_with_outer(&program, &nm, outer_has_c, &root);
+    let outer = |x: usize| x == 2 && outer_has_c;
+    let comp_scope = |x: usize| x == k || outer(x);
+    if outer(a) && comp_scope(e) && (w == v || comp_scope(w)) {
+        assert!(matches!(&res, Ok(ir::Expr::ObjectComp { .. })), "accepted");
+        kani::cover!(e == k && w == v && v != k, "name from the generator, body from the object local");
+    } else {
+        assert!(matches!(&res, Err(AnalyzeError::UnknownVariable { .. })), "unbound variable (a computed field name does not see the object's locals)");
+        kani::cover!(outer(a) && e == v && !comp_scope(e), "field name refers to the object local: rejected");
+    }
+    core::mem::forget(res);
+    core::mem::forget(program);
+}
+}
+
 // @harness id=c09_import_path props=C09 tier=quick cap=1500
 // @desc Analyzer on `if false then import E else null` / `importstr E` with E a string literal, a text block or another expression: accepted / TextBlockAsImportPath / ComputedImportPath - the computed path is rejected although the branch can never be evaluated
 // @bound 3 path kinds x 2 import kinds, inside a dead branch
